@@ -9,6 +9,7 @@ mod bigmath;
 mod exec;
 mod model;
 mod node;
+mod pool;
 mod scen;
 
 use exec::{Exec, SegmentOut};
@@ -222,6 +223,35 @@ fn main() {
                 HASH_SEED.store(sc.seed, Ordering::Relaxed);
             }
             let res = run_scenario(&sc, Some(&path));
+            println!("{}", serde_json::to_string(&res).unwrap());
+            0
+        }
+        "pool-gen" => {
+            let seed: u64 = arg_value(&args, "--seed").unwrap().parse().unwrap();
+            let prop = arg_value(&args, "--prop").unwrap_or_else(|| "C11".into());
+            println!("{}", serde_json::to_string(&pool::generate(seed, &prop)).unwrap());
+            0
+        }
+        "pool-run" | "pool-exec" => {
+            let sc: pool::PoolScenario = if mode == "pool-run" {
+                let seed: u64 = arg_value(&args, "--seed").unwrap().parse().unwrap();
+                let prop = arg_value(&args, "--prop").unwrap_or_else(|| "C11".into());
+                pool::generate(seed, &prop)
+            } else {
+                let path = arg_value(&args, "--scenario").unwrap();
+                let sc: pool::PoolScenario = serde_json::from_str(&std::fs::read_to_string(path).unwrap()).unwrap();
+                if arg_value(&args, "--hash-seed").is_none() {
+                    HASH_SEED.store(sc.seed, Ordering::Relaxed);
+                }
+                sc
+            };
+            let dir = scratch();
+            let _ = std::fs::remove_dir_all(&dir);
+            let res = match pool::PoolExec::open(sc.clone(), &dir) {
+                Ok(mut e) => e.run(),
+                Err(e) => RunResult { seed: sc.seed, harness_error: Some(e), ..Default::default() },
+            };
+            let _ = std::fs::remove_dir_all(&dir);
             println!("{}", serde_json::to_string(&res).unwrap());
             0
         }
